@@ -224,8 +224,8 @@ func (s *scheduler) settle(a *schedActor) []map[string]any {
 			continue
 		}
 		gi := goroutines()[a.gid]
-		if a == s.gc && (strings.HasPrefix(gi.reason, "select") || strings.HasPrefix(gi.reason, "sleep")) {
-			break // the collector finished its pass and waits for the next trigger
+		if a == s.gc && (gi.reason == "" || strings.HasPrefix(gi.reason, "select") || strings.HasPrefix(gi.reason, "sleep")) {
+			break // the collector finished its pass and waits for the next trigger (or exited: DB.Stop)
 		}
 		if isMutexWait(gi.reason) {
 			s.mu.Lock()
@@ -283,8 +283,8 @@ func (s *scheduler) settle(a *schedActor) []map[string]any {
 				if isMutexWait(gi.reason) {
 					break // still blocked
 				}
-				if b == s.gc && (strings.HasPrefix(gi.reason, "select") || strings.HasPrefix(gi.reason, "sleep") || strings.HasPrefix(gi.reason, "chan receive")) {
-					break // collector idle (waiting for a trigger or for its rate limiter)
+				if b == s.gc && (gi.reason == "" || strings.HasPrefix(gi.reason, "select") || strings.HasPrefix(gi.reason, "sleep") || strings.HasPrefix(gi.reason, "chan receive")) {
+					break // collector idle (waiting for a trigger or for its rate limiter) or gone (DB.Stop)
 				}
 			} else if b == s.gc {
 				break
